@@ -336,7 +336,7 @@ def replay(tier, condname, cex):
 META = {
     "rule": "evaluations = execution paths of the repo's string functions explored by engine B; each path ends in one z3 obligation (unsat = holds for every code point assignment on that path); non-trivial = a segment shape with more than one path",
     "bounds": {"quick": "strings of k<=3 segments (all shapes), k=4 with at most one arbitrary code point; a segment is an arbitrary code point (0..0x10FFFF, surrogates included) or a dictionary entry ('''  \"\"\"  \\n  ' \\n'  \\\\  '  \"  space  tab  CR)",
-               "thorough": "k<=4 all shapes, k=5 with at most one arbitrary code point; both tiers: 12 file-rewrite lines (existing non-ASCII / astral / multi-line literals before or at the replaced node) with symbolic int leaves and a symbolic choice among 6 written strings under every subset of fix/trim/update"},
+               "thorough": "k<=4 all shapes, k=5 with at most one arbitrary code point; both tiers: 17 file-rewrite lines (existing non-ASCII / astral / multi-line literals before or at the replaced node) with symbolic int leaves and a symbolic choice among 6 written strings under every subset of create/fix/trim/update"},
     "outside": "strings that need more segments; single-line strings are rendered by CPython's repr (environment; the contract corpus c12b checks them through the real pipeline); the formatter's treatment of the literal (corpus only); bytes (always repr)",
     "assumptions": ["str.isprintable: exact table up to U+00A0 (read from the running interpreter), unconstrained boolean above (sound over-approximation)",
                     "decode = executable model of CPython's triple-quoted literal evaluation, validated against ast.literal_eval on every run",
